@@ -253,7 +253,7 @@ def work(item):
 
 def main(tier, seed):
     t0 = time.time()
-    depth = 3 if tier == "quick" else 6
+    depth = 3 if tier == "quick" else 4
     hs = R.histories(depth)
     plans = [{}]
     for owner in ("c0", "robot"):
